@@ -467,6 +467,35 @@ func (hc *helperCtx) mayYield(h *ssa.Function, v ssa.Value, at ssa.Instruction, 
 			if hc.edgePhi && hc.phiEdgeBlocked(pred, ph.Block(), bars) {
 				continue // the operand flows in over a barrier edge: not on a bars-avoiding path
 			}
+			// the operand flows in along pred→phi-block; when that very edge is a
+			// barrier edge (return a && !b: the constant false arrives on the
+			// "a is false" edge) the value is behind the barriers on this path
+			if iff, ok := pred.Instrs[len(pred.Instrs)-1].(*ssa.If); ok && len(pred.Succs) == 2 && pred.Succs[0] != pred.Succs[1] {
+				which := 0
+				if pred.Succs[1] == ph.Block() {
+					which = 1
+				}
+				raw := condOf(iff)
+				cond := hc.inHelper(h, raw)
+				barred := false
+				for _, b := range bars {
+					if b.Edge == nil {
+						continue
+					}
+					if m, w := b.Edge(cond); m && w == which {
+						barred = true
+						break
+					}
+				}
+				if !barred {
+					if g, idx, truthySucc, gcl, ok := helperResultEdge(h, raw); ok {
+						barred = hc.resultImplies(g, idx, which == truthySucc, bars, hc.callArgsIn(&gcl.Call, h))
+					}
+				}
+				if barred {
+					continue
+				}
+			}
 			if hc.mayYield(h, e, pred.Instrs[len(pred.Instrs)-1], want, bars, base, depth+1) {
 				return true
 			}
